@@ -71,6 +71,9 @@ func coherence(base, layer afero.Fs) string {
 		if n.Dir {
 			continue
 		}
+		if bfi, err := base.Stat(n.Path); err != nil || bfi.IsDir() {
+			return fmt.Sprintf("%s is a regular file in the cache layer but not in the base", n.Path)
+		}
 		b, err := afero.ReadFile(base, n.Path)
 		if err != nil {
 			return fmt.Sprintf("%s is in the cache layer but not in the base", n.Path)
@@ -551,6 +554,20 @@ func c11Exhaustive(tier string) []corr.Case {
 				}
 				l = append(l, fmt.Sprintf("openfile %s %d 420", h("/d/f"), fl), fmt.Sprintf("h.write %d 5859", nh), fmt.Sprintf("h.seek %d 0 1", nh),
 					fmt.Sprintf("h.close %d", nh), "snapshot", "cohere")
+				cases = append(cases, corr.Case{Lines: l})
+			}
+		}
+	}
+	// every mutator (and a write-open) on a DIRECTORY the cache has not seen yet, and on one it holds an outdated entry of:
+	// whatever the call answers, no regular file may appear under the directory's name in the cache
+	for _, dur := range []int{0, 3600} {
+		for _, state := range []string{"uncached", "stale"} {
+			for _, op := range []string{"chmod %s 448", "chown %s 1 1", "chtimes %s -50", "rename %s " + h("/e"), "openfile %s 2 420", "openfile %s 0 420", "openfile %s 66 420", "mkdir %s 493", "mkdirall %s 493", "remove %s", "stat %s"} {
+				l := []string{fmt.Sprintf("case cache-mem %d", dur), "b.mkdirall " + h("/d/sub") + " 493", "b.create " + h("/d/sub/f"), "h.write 0 6c696e65", "h.close 0", "b.chtimes " + h("/d/sub") + " -9000"}
+				if state == "stale" {
+					l = append(l, "l.mkdirall "+h("/d/sub")+" 493", "l.chtimes "+h("/d/sub")+" -20000")
+				}
+				l = append(l, fmt.Sprintf(op, h("/d/sub")), "stat "+h("/d/sub"), "open "+h("/d/sub"), "h.readdirnames 1 -1", "stat "+h("/d/sub/f"), "snapshot", "cohere")
 				cases = append(cases, corr.Case{Lines: l})
 			}
 		}
